@@ -522,10 +522,17 @@ static std::string caseHttpServer(std::map<std::string, std::string> a)
 
 static std::string caseNoContext(std::map<std::string, std::string> a)
 {
-  if (a["kind"] == "listener")
+  if (a["kind"] == "listener" || a["kind"] == "listener-nomode")
   {
     TransportConfig cfg;
     cfg.protocol = Protocol::TCP;
+    if (a["kind"] == "listener-nomode")
+    {
+      cfg.serverTls.enabled = true;
+      cfg.serverTls.certFile = pki.c("valid");
+      cfg.serverTls.keyFile = pki.k("valid");
+      cfg.serverTls.defaultMode = TlsMode::None;
+    }
     auto tr = Transport::tcp(cfg);
     if (!tr->start().isOk()) return "STARTFAIL";
     auto lr = tr->addListener("127.0.0.1", 0, TlsMode::Server);
@@ -558,7 +565,15 @@ static std::string caseNoContext(std::map<std::string, std::string> a)
   RawServer srv;
   srv.mode = "plain";
   srv.start();
-  auto tr = Transport::tcp(clientCfg(false, false, "none", "0"));
+  TransportConfig ccfg = clientCfg(false, false, "none", "0");
+  if (a["kind"] == "client-nomode")
+  {
+    // TLS "enabled" but the role was never selected: initTls builds no client context
+    ccfg.clientTls.enabled = true;
+    ccfg.clientTls.verifyPeer = true;
+    ccfg.clientTls.defaultMode = TlsMode::None;
+  }
+  auto tr = Transport::tcp(ccfg);
   if (!tr->start().isOk()) { srv.join(); return "STARTFAIL"; }
   auto r = tr->connectSync("127.0.0.1", srv.port, TlsMode::Client, std::chrono::milliseconds(1500));
   if (r.isOk())
